@@ -103,6 +103,30 @@ AREAS = {
         "property": "C15 (makeCtorMatch of internal/mapper/ctor.go: the three nested loops, the zero-value loop and the method calling it "
                     "for both directions = make_ctor_match / ctor_step / ctor_func_loop of Model/Mapper.v, as used by prepare)",
     },
+    "ctornew": {
+        "module": "CtorNewGen",
+        "bridge": "Bridge/CtorNewBridge.v",
+        "prims": ["GoPrims", "NewPrims"],
+        "targets": ["Base/Str.vo", "Model/Ctor.vo", "Model/CtorOpt.vo"],
+        "property": "C02 C13 (Generator.makeNew of internal/constructor/new.go and newParamsList of fields.go = make_new_loop / "
+                    "new_params_list / new_tparams of Model/Ctor.v make_new, the inputs of Model/CtorOpt.v make_opt; newBody is not translated)",
+    },
+    "ctorjson": {
+        "module": "CtorJsonGen",
+        "bridge": "Bridge/CtorJsonBridge.v",
+        "prims": ["GoPrims", "JsonPrims"],
+        "targets": ["Base/Str.vo", "Model/CtorJson.vo"],
+        "property": "C11 (Generator.makeJson of internal/constructor/json.go with Field.JSONTag / HasJSONTag = make_json / make_json_loop of "
+                    "Model/CtorJson.v: tag transform, needJSON, the four lists and the tag map)",
+    },
+    "restparam": {
+        "module": "RestParamGen",
+        "bridge": "Bridge/RestParamBridge.v",
+        "prims": ["GoPrims", "RestParamPrims"],
+        "targets": ["Base/Str.vo", "Model/Rest.vo", "Proofs/RestBase.vo"],
+        "property": "C06 (setBodyParamName, handleMapType, handleIdent and the field loop of handleStruct of internal/restclient/"
+                    "paramhandler.go simulate set_body / handle_map / handle_ident / handle_field of Model/Rest.v)",
+    },
     "enum": {
         "module": "EnumGen",
         "bridge": "Bridge/EnumBridge.v",
